@@ -149,7 +149,7 @@ func (w *World) verifyFunc(fn *ssa.Function, ct *Contract, mode Mode) (res *Func
 			goal := e.evalClause(penv, c)
 			e.oblige("ensures", fmt.Sprintf("ensures[%s]", clauseName(c, i)), exit.guard, goal, fn.Pos())
 		}
-		if !w.sweep {
+		if !w.sweep && !ct.ModAny {
 			for _, k := range sortedHeapKeys(exit.heap) {
 				if strings.HasPrefix(k, "map:") {
 					continue
